@@ -20,15 +20,16 @@ func compRun(args []string) error {
 	fs := flag.NewFlagSet("comp-run", flag.ExitOnError)
 	out := fs.String("out", "", "trace file (NDJSON)")
 	seed := fs.Int64("seed", 0, "permutation seed (0: suite order)")
-	fault := fs.String("fault", "", "fault wrapper: dropFIB | staleGet | ignoreFlush | misreportElection | acceptRepeatedParams")
+	fault := fs.String("fault", "", "fault wrapper: dropFIB | staleGet | ignoreFlush | misreportElection | acceptRepeatedParams | failIdempotentDelete | programNonPrimary | dropErrorReason")
 	base := fs.Uint64("base", 1, "starting election id")
-	only := fs.String("only", "", "substring filter on test names")
+	only := fs.String("only", "", "substring filter on test names (alternatives separated by |)")
 	exact := fs.String("exact", "", "exact test name")
 	order := fs.String("order", "", "JSON file with the exact list of test names to run")
 	after := fs.String("after", "", "run this test before every other selected test (directed order)")
 	budget := fs.Duration("budget", 0, "time budget of -after")
 	defni := fs.String("defni", "", "name under which the suite and the wire know the default network instance")
 	vrfn := fs.String("vrf", "", "name of the non-default VRF")
+	each := fs.Bool("each", false, "run every selected test alone, as the first test of its own run")
 	fs.Parse(args)
 	w, err := os.Create(*out)
 	if err != nil {
@@ -40,7 +41,15 @@ func compRun(args []string) error {
 	sink := &ribdrv.WriterSink{W: bw}
 	var pick func(*compliance.TestSpec) bool
 	if *only != "" {
-		pick = func(t *compliance.TestSpec) bool { return strings.Contains(t.In.ShortName, *only) }
+		subs := strings.Split(*only, "|")
+		pick = func(t *compliance.TestSpec) bool {
+			for _, x := range subs {
+				if strings.Contains(t.In.ShortName, x) {
+					return true
+				}
+			}
+			return false
+		}
 	}
 	if *exact != "" {
 		pick = func(t *compliance.TestSpec) bool { return t.In.ShortName == *exact }
@@ -55,9 +64,26 @@ func compRun(args []string) error {
 		}
 	}
 	compdrv.After, compdrv.AfterBudget = *after, *budget
-	vs, err := compdrv.RunSuite(sink, *seed, *fault, *base, compdrv.Names{DefaultNI: *defni, VRF: *vrfn}, pick)
-	if err != nil {
-		return err
+	var vs []compdrv.Verdict
+	if *each {
+		// every (selected) test as the first and only test of a run: fresh servers, the election counter at -base
+		for _, t := range compliance.TestSuite {
+			if pick != nil && !pick(t) {
+				continue
+			}
+			name := t.In.ShortName
+			v, err := compdrv.RunSuite(sink, 0, *fault, *base, compdrv.Names{DefaultNI: *defni, VRF: *vrfn},
+				func(x *compliance.TestSpec) bool { return x.In.ShortName == name })
+			if err != nil {
+				return err
+			}
+			vs = append(vs, v...)
+		}
+	} else {
+		vs, err = compdrv.RunSuite(sink, *seed, *fault, *base, compdrv.Names{DefaultNI: *defni, VRF: *vrfn}, pick)
+		if err != nil {
+			return err
+		}
 	}
 	pass, fail, skip := 0, 0, 0
 	for _, v := range vs {
